@@ -8,6 +8,7 @@ import re
 from ..core.astutil import u, call_name, kwarg, walk_local, parent_map, names_in, stmts_local, dotted, inline_locals
 from ..core.loader import AnchorError, Undecided
 from ..core.report import Ctx
+from .c34 import normalise  # behaviour-preserving rewrites shared by this rule family
 
 IMP = "src/porepy/fracs/fracture_importer.py"
 N2D = "src/porepy/fracs/fracture_network_2d.py"
@@ -32,7 +33,7 @@ META = {
     "rule_text": "one obligation per bounding-box key per reader, per order flag, per delimiter pair, per loader call, per layout fact",
     "trusted_base": ["python ast", "sa.core (loader, astutil)", "csv.writer writes str(float) (shortest round-trip repr)",
                      "numpy: savetxt comment prefix '# ', loadtxt/genfromtxt defaults, ravel/reshape order semantics"],
-    "assumptions": ["readers are used with their default arguments on files written with the writer's default arguments "
+    "assumptions": ["the normaliser applied to a copy of each anchored function (guard-continue -> if/else, one level of same-module helper inlining incl. early returns, c34.normalise) preserves behaviour", "readers are used with their default arguments on files written with the writer's default arguments "
                     "unless a rule says otherwise", "header names contain no whitespace (see notes)"],
     "technique": "writer/reader table extraction and comparison (permutations, flags, separators) on the AST",
 }
@@ -57,6 +58,16 @@ def _local_value(fn: ast.AST, name: str) -> ast.expr | None:
     return vals[0] if len(vals) == 1 else None
 
 
+def _resolve(fn: ast.AST, e: ast.expr, depth: int = 4) -> ast.expr:
+    """follow single-assignment local names"""
+    while isinstance(e, ast.Name) and depth > 0:
+        v = _local_value(fn, e.id)
+        if v is None:
+            break
+        e, depth = v, depth - 1
+    return e
+
+
 def _order_flag(call: ast.Call, pos: int | None = None) -> str:
     k = kwarg(call, "order")
     if k is None and pos is not None and len(call.args) > pos:
@@ -79,44 +90,61 @@ def _delimiter(call: ast.Call, default: str) -> str:
     return s
 
 
+def _fn(mod, qual: str) -> ast.FunctionDef:
+    """anchored function after the behaviour-preserving rewrites (helpers inlined, guard-continue folded)"""
+    cls = mod.cls(qual.split(".")[0]) if "." in qual else None
+    return normalise(mod, mod.func(qual), cls=cls)
+
+
+def _rows_written(fn: ast.FunctionDef):
+    """[(row expression, kind-hint, call node)] for writerow(x) / writerows(<comprehension>) calls.
+    hint: 'loop' (inside a for loop or a writerows comprehension), ('if', test) otherwise."""
+    pm = parent_map(fn)
+    out = []
+    for c in [c for c in walk_local(fn) if isinstance(c, ast.Call) and call_name(c) in ("writerow", "writerows") and c.args]:
+        if call_name(c) == "writerows":
+            a = _resolve(fn, c.args[0])
+            if isinstance(a, (ast.GeneratorExp, ast.ListComp)) and len(a.generators) == 1:
+                out.append((a.elt, "loop", c, a.generators[0]))
+                continue
+            raise Undecided(f"writerows argument `{u(c.args[0])[:60]}` is not a comprehension")
+        p, hint = c, None
+        while p in pm:
+            p = pm[p]
+            if isinstance(p, ast.For):
+                hint = ("loop", p)
+                break
+            if isinstance(p, ast.If) and hint is None:
+                hint = ("if", p)
+        if hint is None:
+            hint = ("plain", None)
+        out.append((c.args[0], hint[0], c, hint[1]))
+    return out
+
+
 # ======================================================================================
 #  3-d csv
 # ======================================================================================
 
 def _writer3d(mod):
-    fn = mod.func("FractureNetwork3d.to_csv")
+    fn = _fn(mod, "FractureNetwork3d.to_csv")
     wcalls = [c for c in walk_local(fn) if isinstance(c, ast.Call) and call_name(c) == "writer"]
     if len(wcalls) != 1:
         raise AnchorError("FractureNetwork3d.to_csv: csv.writer(...) not found")
-    rows = [c for c in walk_local(fn) if isinstance(c, ast.Call) and call_name(c) == "writerow"]
-    dom_row = None
-    frac_row = None
-    pm = parent_map(fn)
-    for c in rows:
-        p = c
-        kind = None
-        while p in pm:
-            p = pm[p]
-            if isinstance(p, ast.For):
-                kind = "frac"
-                break
-            if isinstance(p, ast.If) and "domain" in names_in(p.test):
-                kind = "dom"
-                break
-        if kind == "dom":
-            dom_row = c
-        elif kind == "frac":
-            frac_row = c
+    dom_row = frac_row = None
+    for row, hint, call, ctxnode in _rows_written(fn):
+        if hint == "loop":
+            frac_row = (row, call)
+        elif hint == "if" and "domain" in names_in(ctxnode.test):
+            dom_row = (row, call)
     if dom_row is None or frac_row is None:
         raise AnchorError("FractureNetwork3d.to_csv: domain row / fracture rows not found")
     # column list of the domain row
-    arg = dom_row.args[0]
+    arg = _resolve(fn, dom_row[0])
     cols: list[str] | None = None
-    if isinstance(arg, ast.ListComp) and len(arg.generators) == 1 and isinstance(arg.generators[0].target, ast.Name):
+    if isinstance(arg, (ast.ListComp, ast.GeneratorExp)) and len(arg.generators) == 1 and isinstance(arg.generators[0].target, ast.Name):
         g = arg.generators[0]
-        it = g.iter
-        if isinstance(it, ast.Name):
-            it = _local_value(fn, it.id)
+        it = _resolve(fn, g.iter)
         elt = arg.elt
         if isinstance(it, (ast.List, ast.Tuple)) and all(_str(e) is not None for e in it.elts) and \
                 isinstance(elt, ast.Subscript) and isinstance(elt.slice, ast.Name) and elt.slice.id == g.target.id \
@@ -130,52 +158,80 @@ def _writer3d(mod):
         if len(cs) == len(arg.elts):
             cols = cs
     if cols is None:
-        raise Undecided(f"FractureNetwork3d.to_csv: domain row `{u(arg)}` is not a recognised list of bounding-box entries")
+        raise Undecided(f"FractureNetwork3d.to_csv: domain row `{u(arg)[:80]}` is not a recognised list of bounding-box entries")
     # fracture rows: <pts>.ravel(order=?)
-    farg = frac_row.args[0]
+    farg = _resolve(fn, frac_row[0])
+    if _is_call(farg, "list") or _is_call(farg, "tuple"):
+        farg = farg.args[0]
     if not (isinstance(farg, ast.Call) and call_name(farg) in ("ravel", "flatten") and isinstance(farg.func, ast.Attribute)):
-        raise Undecided(f"FractureNetwork3d.to_csv: fracture row `{u(farg)}` is not <pts>.ravel(order=...)")
-    transposed = isinstance(farg.func.value, ast.Attribute) and farg.func.value.attr == "T"
-    flag = _order_flag(farg, 0)
-    return fn, wcalls[0], dom_row, cols, frac_row, flag, transposed
+        raise Undecided(f"FractureNetwork3d.to_csv: fracture row `{u(farg)[:80]}` is not <pts>.ravel(order=...)")
+    base = farg.func.value
+    if isinstance(base, ast.Name) and base.id in ("np", "numpy") and farg.args:   # np.ravel(x, order=..)
+        base = farg.args[0]
+        flag = _order_flag(farg, 1)
+    else:
+        flag = _order_flag(farg, 0)
+    transposed = isinstance(base, ast.Attribute) and base.attr == "T"
+    return fn, wcalls[0], dom_row[1], cols, farg, flag, transposed
+
+
+def _is_call(e, name: str) -> bool:
+    return isinstance(e, ast.Call) and call_name(e) == name
+
+
+def _box_table(fn: ast.FunctionDef, a: ast.expr, qual: str):
+    """key -> column index for the argument of pp.Domain(...)"""
+    a = _resolve(fn, a)
+    table: dict[str, int] = {}
+    src: set[str] = set()
+
+    def entry(ks, v):
+        if ks is None or not (isinstance(v, ast.Subscript) and isinstance(v.value, ast.Name) and _int(v.slice) is not None):
+            raise Undecided(f"{qual}: box entry `{ks}: {u(v)}` is not `<str>: <row>[<int>]`")
+        table[ks] = _int(v.slice)
+        src.add(v.value.id)
+    if isinstance(a, ast.Dict):
+        for k, v in zip(a.keys, a.values):
+            entry(_str(k) if k is not None else None, v)
+    elif _is_call(a, "dict") and a.keywords and not a.args:
+        for kw in a.keywords:
+            entry(kw.arg, kw.value)
+    elif _is_call(a, "dict") and len(a.args) == 1 and _is_call(a.args[0], "zip") and len(a.args[0].args) == 2:
+        keys = _resolve(fn, a.args[0].args[0])
+        if not (isinstance(keys, (ast.List, ast.Tuple)) and all(_str(e) is not None for e in keys.elts)):
+            raise Undecided(f"{qual}: keys of dict(zip(...)) are not string literals")
+        for i, e in enumerate(keys.elts):
+            table[_str(e)] = i
+        src.add(u(a.args[0].args[1]))
+    else:
+        return None, None
+    if len(src) != 1:
+        raise Undecided(f"{qual}: box entries read from several arrays {sorted(src)}")
+    return a, table
 
 
 def _reader_bbox(fn: ast.FunctionDef, qual: str):
-    """dict literal {key: X[k]} that reaches pp.Domain(...)"""
     doms = [c for c in walk_local(fn) if isinstance(c, ast.Call) and call_name(c) == "Domain" and c.args]
     out = []
     for c in doms:
-        a = c.args[0]
-        if isinstance(a, ast.Name):
-            a = _local_value(fn, a.id)
-        if isinstance(a, ast.Dict):
-            out.append(a)
+        node, table = _box_table(fn, c.args[0], qual)
+        if table is not None:
+            out.append((node, table))
     if len(out) != 1:
-        raise AnchorError(f"{qual}: expected one pp.Domain(<dict literal of box entries>), found {len(out)}")
-    d = out[0]
-    table = {}
-    src = set()
-    for k, v in zip(d.keys, d.values):
-        ks = _str(k) if k is not None else None
-        if ks is None or not (isinstance(v, ast.Subscript) and isinstance(v.value, ast.Name) and _int(v.slice) is not None):
-            raise Undecided(f"{qual}: box entry `{u(k) if k else '**'}: {u(v)}` is not `<str>: <row>[<int>]`")
-        table[ks] = _int(v.slice)
-        src.add(v.value.id)
-    if len(src) != 1:
-        raise Undecided(f"{qual}: box entries read from several arrays {sorted(src)}")
-    return d, table
+        raise AnchorError(f"{qual}: expected one pp.Domain(<table of box entries>), found {len(out)}")
+    return out[0]
 
 
 def _check_3d(ctx: Ctx) -> None:
     w = ctx.repo.module(N3D)
     r = ctx.repo.module(IMP)
-    wfn, wcall, dom_row, cols, frac_row, wflag, wtransposed = _writer3d(w)
+    wfn, wcall, dom_row, cols, frac_expr, wflag, wtransposed = _writer3d(w)
     ctx.sample({"rule": "R1", "writer_columns": cols})
     if len(set(cols)) != len(cols):
         ctx.check("R1", False, w, "FractureNetwork3d.to_csv", dom_row, f"domain row writes a key twice: {cols}",
                   construct="domain row keys distinct")
     for qual in ("network_3d_from_csv", "elliptic_network_3d_from_csv"):
-        fn = r.func(qual)
+        fn = _fn(r, qual)
         d, table = _reader_bbox(fn, qual)
         ctx.sample({"rule": "R1", "reader": qual, "table": table})
         if set(table) != set(cols):
@@ -196,30 +252,33 @@ def _check_3d(ctx: Ctx) -> None:
         ctx.check("R2", dw == dr, r, qual, rc[0], f"csv.reader delimiter ({dr!r}) must equal the csv.writer delimiter ({dw!r})",
                   construct=f"3d delimiter reader {dr!r} writer {dw!r}")
     # fracture rows
-    fn = r.func("network_3d_from_csv")
+    fn = _fn(r, "network_3d_from_csv")
     resh = [c for c in walk_local(fn) if isinstance(c, ast.Call) and call_name(c) == "reshape"]
     if len(resh) != 1:
         raise AnchorError("network_3d_from_csv: expected one reshape of the row")
     rs = resh[0]
-    shape = rs.args[0] if rs.args else None
+    np_form = isinstance(rs.func, ast.Attribute) and isinstance(rs.func.value, ast.Name) and rs.func.value.id in ("np", "numpy")
+    rargs = rs.args[1:] if np_form else rs.args
+    shape = rargs[0] if rargs else None
     if isinstance(shape, ast.Tuple) and len(shape.elts) == 2:
         dims = (_int(shape.elts[0]), _int(shape.elts[1]))
-    elif len(rs.args) >= 2:
-        dims = (_int(rs.args[0]), _int(rs.args[1]))
+    elif len(rargs) >= 2:
+        dims = (_int(rargs[0]), _int(rargs[1]))
     else:
         dims = (None, None)
     pm = parent_map(fn)
     rtransposed = isinstance(pm.get(rs), ast.Attribute) and pm[rs].attr == "T"
     rflag = _order_flag(rs)
-    # effective layout: 'F' = point-major (x0,y0,z0,x1,...), 'C' = coordinate-major
+
     def layout(flag, transposed):
+        """effective layout of the flat row: 'F' = point-major (x0,y0,z0,x1,...), 'C' = coordinate-major"""
         if flag not in ("C", "F"):
             raise Undecided(f"order flag {flag!r} not handled")
         return {"C": "F", "F": "C"}[flag] if transposed else flag
-    if dims == (3, -1):
-        r_layout = layout(rflag, rtransposed) if not rtransposed else None
+    if dims == (3, -1) and not rtransposed:
+        r_layout = rflag if rflag in ("C", "F") else None
     elif dims == (-1, 3) and rtransposed:
-        r_layout = {"C": "F", "F": "C"}[rflag]
+        r_layout = {"C": "F", "F": "C"}.get(rflag)
     else:
         r_layout = None
     if r_layout is None:
@@ -227,93 +286,115 @@ def _check_3d(ctx: Ctx) -> None:
     w_layout = layout(wflag, wtransposed)
     ctx.check("R2", r_layout == w_layout, r, "network_3d_from_csv", rs,
               f"the writer flattens the 3 x n point array {'point' if w_layout == 'F' else 'coordinate'}-major "
-              f"(ravel order={wflag!r}{', transposed' if wtransposed else ''}), the reader rebuilds it "
+              f"(`{u(frac_expr)}`), the reader rebuilds it "
               f"{'point' if r_layout == 'F' else 'coordinate'}-major (`{u(rs)}`)"
               + ("" if r_layout == w_layout else ": coordinates are scrambled for n > 1"),
               construct=f"3d point layout writer {w_layout} reader {r_layout}",
-              facts={"writer": u(frac_row.args[0]), "reader": u(rs)})
+              facts={"writer": u(frac_expr), "reader": u(rs)})
     # the reshaped array is what the fracture is built from, and rows are parsed as float
-    arr = rs.func.value if isinstance(rs.func, ast.Attribute) else None
-    src = _local_value(fn, arr.id) if isinstance(arr, ast.Name) else arr
-    ok = isinstance(src, ast.Call) and call_name(src) in ("asarray", "array") and "float" in u(src)
-    ctx.check("R2", bool(ok), r, "network_3d_from_csv", rs, "fracture rows must be parsed as floats before reshaping",
-              construct="3d row parsed as float", facts={"source": u(src) if src is not None else None})
+    arr = (rs.args[0] if np_form else rs.func.value) if isinstance(rs.func, ast.Attribute) else None
+    src = _resolve(fn, arr) if arr is not None else None
+    if not (isinstance(src, ast.Call) and call_name(src) in ("asarray", "array", "fromiter", "asfarray")):
+        raise Undecided(f"network_3d_from_csv: source of the reshaped row `{u(src) if src is not None else None}` not recognised")
+    ctx.check("R2", "float" in u(src) or call_name(src) == "asfarray", r, "network_3d_from_csv", rs,
+              "fracture rows must be parsed as floats before reshaping",
+              construct="3d row parsed as float", facts={"source": u(src)})
 
 
 # ======================================================================================
 #  2-d csv
 # ======================================================================================
 
+def _list_items(e: ast.expr, env: dict, ID: str, EDGE: str):
+    """items of a row-building expression: 'id', 'pt<k>@<array>', or '?<text>'"""
+    def col(a):
+        if _is_call(a, "list") or _is_call(a, "tuple"):
+            a = a.args[0]
+        if isinstance(a, ast.Subscript) and isinstance(a.slice, ast.Tuple) and len(a.slice.elts) == 2 \
+                and isinstance(a.slice.elts[0], ast.Slice) and a.slice.elts[0].lower is None and a.slice.elts[0].upper is None \
+                and isinstance(a.slice.elts[1], ast.Subscript) and u(a.slice.elts[1].value) == EDGE and _int(a.slice.elts[1].slice) is not None:
+            return f"pt{_int(a.slice.elts[1].slice)}@{u(a.value)}"
+        return None
+    if isinstance(e, ast.Name) and e.id in env:
+        return list(env[e.id])
+    if isinstance(e, (ast.List, ast.Tuple)):
+        out = []
+        for x in e.elts:
+            if isinstance(x, ast.Starred):
+                c = col(x.value)
+                out.append(c if c else f"?{u(x)}")
+            elif isinstance(x, ast.Name) and x.id == ID:
+                out.append("id")
+            else:
+                out.append(f"?{u(x)}")
+        return out
+    if isinstance(e, ast.BinOp) and isinstance(e.op, ast.Add):
+        return _list_items(e.left, env, ID, EDGE) + _list_items(e.right, env, ID, EDGE)
+    c = col(e)
+    if c:
+        return [c]
+    return [f"?{u(e)[:40]}"]
+
+
 def _check_2d(ctx: Ctx) -> None:
     w = ctx.repo.module(N2D)
     r = ctx.repo.module(IMP)
     wq, rq = "FractureNetwork2d.to_csv", "network_2d_from_csv"
-    wfn = w.func(wq)
-    rfn = r.func(rq)
+    wfn = _fn(w, wq)
+    rfn = _fn(r, rq)
     wcalls = [c for c in walk_local(wfn) if isinstance(c, ast.Call) and call_name(c) == "writer"]
     if len(wcalls) != 1:
         raise AnchorError(f"{wq}: csv.writer not found")
-    pm = parent_map(wfn)
-    rows = [c for c in walk_local(wfn) if isinstance(c, ast.Call) and call_name(c) == "writerow"]
     hdr_row = data_row = None
-    for c in rows:
-        p = c
-        while p in pm:
-            p = pm[p]
-            if isinstance(p, ast.For):
-                data_row = (c, p)
-                break
-            if isinstance(p, ast.If):
-                hdr_row = (c, p)
-                break
+    for row, hint, call, ctxnode in _rows_written(wfn):
+        if hint == "loop":
+            data_row = (row, call, ctxnode)
+        elif hint == "if":
+            hdr_row = (row, call, ctxnode)
     if hdr_row is None or data_row is None:
         raise AnchorError(f"{wq}: header row / data rows not found")
     # ---- header
-    hc, hif = hdr_row
-    harg = hc.args[0]
-    if isinstance(harg, ast.Name):
-        harg = _local_value(wfn, harg.id)
+    harg = _resolve(wfn, hdr_row[0])
+    hif = hdr_row[2]
     if not (isinstance(harg, (ast.List, ast.Tuple)) and all(_str(e) is not None for e in harg.elts)):
         raise Undecided(f"{wq}: header row is not a list of string literals")
     header = [_str(e) for e in harg.elts]
     flag = hif.test.id if isinstance(hif.test, ast.Name) else None
     wargs = wfn.args
     defaults = dict(zip([a.arg for a in wargs.args][len(wargs.args) - len(wargs.defaults):], wargs.defaults))
+    for ka, kd in zip(wargs.kwonlyargs, wargs.kw_defaults):
+        if kd is not None:
+            defaults[ka.arg] = kd
     if flag is None or flag not in defaults or not isinstance(defaults[flag], ast.Constant):
         raise Undecided(f"{wq}: header is not guarded by a boolean parameter with a literal default")
     n_hdr_default = 1 if defaults[flag].value else 0
     # ---- data rows
-    dc, dfor = data_row
-    darg = dc.args[0]
-    layout: list[str] = []
-    if not isinstance(darg, ast.Name):
-        raise Undecided(f"{wq}: data row `{u(darg)}` is not a local list")
-    L = darg.id
-    # loop targets: for k, edge in enumerate(self._edges.T)
-    if not (isinstance(dfor.target, ast.Tuple) and len(dfor.target.elts) == 2 and _isenum(dfor.iter)):
+    drow, dc, dloop = data_row
+    if isinstance(dloop, ast.comprehension):
+        target, it, body = dloop.target, dloop.iter, []
+    else:
+        target, it, body = dloop.target, dloop.iter, dloop.body
+    if not (isinstance(target, ast.Tuple) and len(target.elts) == 2 and _isenum(it) and all(isinstance(e, ast.Name) for e in target.elts)):
         raise Undecided(f"{wq}: data loop is not `for id, edge in enumerate(<edges>.T)`")
-    ID, EDGE = dfor.target.elts[0].id, dfor.target.elts[1].id
-    edges_src = u(dfor.iter.args[0])
-    for s in dfor.body:
-        if isinstance(s, ast.Assign) and len(s.targets) == 1 and u(s.targets[0]) == L and isinstance(s.value, ast.List):
-            for e in s.value.elts:
-                layout.append("id" if (isinstance(e, ast.Name) and e.id == ID) else f"?{u(e)}")
+    ID, EDGE = target.elts[0].id, target.elts[1].id
+    edges_src = u(it.args[0])
+    env: dict[str, list] = {}
+    for s in body:
+        if isinstance(s, ast.Assign) and len(s.targets) == 1 and isinstance(s.targets[0], ast.Name):
+            env[s.targets[0].id] = _list_items(s.value, env, ID, EDGE)
+        elif isinstance(s, ast.AugAssign) and isinstance(s.target, ast.Name) and isinstance(s.op, ast.Add) and s.target.id in env:
+            env[s.target.id] = env[s.target.id] + _list_items(s.value, env, ID, EDGE)
         elif isinstance(s, ast.Expr) and isinstance(s.value, ast.Call) and call_name(s.value) in ("extend", "append") \
-                and u(s.value.func.value) == L:
-            a = s.value.args[0]
-            if call_name(s.value) == "extend" and isinstance(a, ast.Subscript) and isinstance(a.slice, ast.Tuple) \
-                    and len(a.slice.elts) == 2 and isinstance(a.slice.elts[0], ast.Slice) and a.slice.elts[0].lower is None \
-                    and a.slice.elts[0].upper is None and isinstance(a.slice.elts[1], ast.Subscript) \
-                    and u(a.slice.elts[1].value) == EDGE and _int(a.slice.elts[1].slice) is not None:
-                layout.append(f"pt{_int(a.slice.elts[1].slice)}@{u(a.value)}")
-            else:
-                layout.append(f"?{u(a)}")
-        elif isinstance(s, ast.Expr) and s.value is dc:
-            pass
-        elif isinstance(s, ast.Expr) and isinstance(s.value, ast.Constant):
+                and isinstance(s.value.func, ast.Attribute) and u(s.value.func.value) in env and s.value.args:
+            items = _list_items(s.value.args[0], env, ID, EDGE)
+            if call_name(s.value) == "append" and not (len(items) == 1 and items[0] == "id"):
+                items = [f"?append({u(s.value.args[0])[:30]})"]
+            env[u(s.value.func.value)] = env[u(s.value.func.value)] + items
+        elif isinstance(s, ast.Expr) and (s.value is dc or isinstance(s.value, ast.Constant)):
             pass
         else:
             raise Undecided(f"{wq}: statement `{u(s)[:60]}` in the data loop is not recognised")
+    layout = _list_items(drow, env, ID, EDGE)
     if any(x.startswith("?") for x in layout):
         raise Undecided(f"{wq}: row layout {layout} contains unrecognised entries")
     ctx.sample({"rule": "R4", "writer_layout": layout, "header": header, "header_rows_default": n_hdr_default})
@@ -323,29 +404,53 @@ def _check_2d(ctx: Ctx) -> None:
     pts_part = layout[n_lead:]
     pt_arrays = {x.split("@")[1] for x in pts_part}
     ok_pts = [x.split("@")[0] for x in pts_part] == ["pt0", "pt1"] and len(pt_arrays) == 1
-    ctx.check("R4", ok_pts and n_lead == 1, w, wq, dfor,
+    ctx.check("R4", ok_pts and n_lead == 1, w, wq, dc,
               f"a row must be [id, point(edge[0]), point(edge[1])] from one point array; it is {layout}",
               construct=f"2d row layout {[x.split('@')[0] for x in layout]}", facts={"layout": layout})
-    ctx.check("R4", edges_src.endswith(".T") and "_edges" in edges_src, w, wq, dfor,
+    ctx.check("R4", edges_src.endswith(".T") and "_edges" in edges_src, w, wq, dc,
               f"rows are produced per edge (column of the edge array): iterates `{edges_src}`", construct="2d rows iterate edges.T")
 
     # ---- reader
     gens = [c for c in walk_local(rfn) if isinstance(c, ast.Call) and call_name(c) == "genfromtxt"]
     if len(gens) != 1:
         raise AnchorError(f"{rq}: np.genfromtxt call not found")
-    # defaults through npargs["x"] = kwargs.get("x", default)
-    rdef = {}
-    for s in stmts_local(rfn):
-        if isinstance(s, ast.Assign) and isinstance(s.targets[0], ast.Subscript) and _str(s.targets[0].slice) is not None \
-                and isinstance(s.value, ast.Call) and call_name(s.value) == "get" and len(s.value.args) == 2:
-            rdef[_str(s.targets[0].slice)] = s.value.args[1]
+
+    def default_of(v: ast.expr):
+        """literal default carried by `kwargs.get(name, default)` or a literal itself"""
+        if _is_call(v, "get") and len(v.args) == 2:
+            return v.args[1]
+        if _is_call(v, "pop") and len(v.args) == 2:
+            return v.args[1]
+        return v
+    rdef: dict[str, ast.expr] = {}
+    star = [k.value for k in gens[0].keywords if k.arg is None]
+    for sv in star:
+        if not isinstance(sv, ast.Name):
+            raise Undecided(f"{rq}: **{u(sv)} passed to genfromtxt is not a local dict")
+        for s in stmts_local(rfn):
+            if isinstance(s, ast.Assign) and len(s.targets) == 1:
+                t = s.targets[0]
+                if isinstance(t, ast.Subscript) and u(t.value) == sv.id and _str(t.slice) is not None:
+                    rdef[_str(t.slice)] = default_of(s.value)
+                elif isinstance(t, ast.Name) and t.id == sv.id:
+                    dv = s.value
+                    if isinstance(dv, ast.Dict):
+                        for k, v in zip(dv.keys, dv.values):
+                            if k is not None and _str(k) is not None:
+                                rdef[_str(k)] = default_of(v)
+                    elif _is_call(dv, "dict"):
+                        for kw in dv.keywords:
+                            if kw.arg:
+                                rdef[kw.arg] = default_of(kw.value)
     for k in gens[0].keywords:
         if k.arg is not None:
-            rdef[k.arg] = k.value
+            rdef[k.arg] = default_of(k.value)
     skip = _int(rdef["skip_header"]) if "skip_header" in rdef else 0
-    delim_r = _str(rdef["delimiter"]) if "delimiter" in rdef else None
     if skip is None:
-        raise Undecided(f"{rq}: skip_header default is not a literal")
+        raise Undecided(f"{rq}: skip_header default `{u(rdef['skip_header'])}` is not a literal")
+    if "delimiter" in rdef and _str(rdef["delimiter"]) is None:
+        raise Undecided(f"{rq}: delimiter default `{u(rdef['delimiter'])}` is not a literal")
+    delim_r = _str(rdef["delimiter"]) if "delimiter" in rdef else None
     comment_hdr = bool(header) and header[0].lstrip().startswith("#")
     ok_skip = (skip == n_hdr_default) or (skip == 0 and n_hdr_default == 1 and comment_hdr)
     ctx.check("R4", ok_skip, r, rq, gens[0],
@@ -383,7 +488,7 @@ def _check_2d(ctx: Ctx) -> None:
     ctx.check("R4", pairs and nd == 2, r, rq, rs,
               f"points must be rebuilt from consecutive (x, y) pairs of each row: reshape((-1, 2)).T in C order; found `{u(v)}`",
               construct=f"2d reshape dims {dims} order {_order_flag(rs)} transposed {transposed}")
-    ctx.check("R4", len(header) == n_lead + 2 * (nd or 0), w, wq, hc,
+    ctx.check("R4", len(header) == n_lead + 2 * (nd or 0), w, wq, hdr_row[1],
               f"header names ({len(header)}) must match the row width 1 + 2*{nd}", construct=f"2d header width {len(header)}")
     sel = rs.func.value  # data[:, pt_cols]
     cols = sel.slice.elts[1] if isinstance(sel, ast.Subscript) and isinstance(sel.slice, ast.Tuple) and len(sel.slice.elts) == 2 else None
@@ -401,22 +506,30 @@ def _check_2d(ctx: Ctx) -> None:
               f"reader point columns start at {first}; the writer puts {n_lead} leading id column(s) before the points (must agree)",
               construct=f"2d point columns start {first} (writer lead {n_lead})")
     # edges: even = start, odd = end (non-polyline arm)
+    starts = None
     vst = None
     for s in stmts_local(rfn):
-        if isinstance(s, ast.Assign) and u(s.targets[0]) == "edges" and isinstance(s.value, ast.Call) and call_name(s.value) == "vstack" \
-                and sum(1 for c in ast.walk(s.value) if isinstance(c, ast.Call) and call_name(c) == "arange") == 2:
+        if not (isinstance(s, ast.Assign) and u(s.targets[0]) == "edges"):
+            continue
+        val = s.value
+        ar = [c for c in ast.walk(val) if isinstance(c, ast.Call) and call_name(c) == "arange"]
+        if isinstance(val, ast.Call) and call_name(val) in ("vstack", "array", "stack") and len(ar) == 2:
+            ar.sort(key=lambda c: (c.lineno, c.col_offset))
+            starts = [(_int(c.args[0]), _int(c.args[2]) if len(c.args) > 2 else None) for c in ar]
+            vst = s
+        elif isinstance(val, ast.Attribute) and val.attr == "T" and _is_call(val.value, "reshape") and len(ar) == 1 \
+                and len(ar[0].args) == 1 and u(val.value.args[0] if len(val.value.args) == 1 else ast.Tuple(elts=val.value.args)) in ("(-1, 2)",) \
+                and _order_flag(val.value) == "C":
+            starts = [(0, 2), (1, 2)]   # arange(2n).reshape((-1, 2)).T == [[0, 2, ...], [1, 3, ...]]
             vst = s
     if vst is None:
-        raise AnchorError(f"{rq}: `edges = np.vstack((np.arange(0, 2n, 2), np.arange(1, 2n, 2)))` not found")
-    ar = [c for c in ast.walk(vst.value) if isinstance(c, ast.Call) and call_name(c) == "arange"]
-    ar.sort(key=lambda c: (c.lineno, c.col_offset))
-    starts = [(_int(c.args[0]), _int(c.args[2]) if len(c.args) > 2 else None) for c in ar]
+        raise AnchorError(f"{rq}: edge numbering `edges = np.vstack((np.arange(0, 2n, 2), np.arange(1, 2n, 2)))` not found")
     ctx.check("R4", starts == [(0, 2), (1, 2)], r, rq, vst,
               f"edge k joins points 2k (start) and 2k+1 (end), the order the writer emits them; found arange starts/steps {starts}",
               construct=f"2d edge numbering {starts}")
     fid = [s for s in stmts_local(rfn) if isinstance(s, ast.Assign) and u(s.targets[0]) == "edges_frac_id"
            and isinstance(s.value, ast.Subscript) and u(s.value.value) == "data"]
-    ok_id = bool(fid) and all(u(s.value.slice) in ("(slice(None, None, None), 0)", ":, 0") or u(s.value) == "data[:, 0]" for s in fid)
+    ok_id = bool(fid) and all(u(s.value) == "data[:, 0]" for s in fid)
     ctx.check("R4", ok_id, r, rq, fid[0] if fid else rfn, "the fracture id is read from column 0, where the writer puts it",
               construct="2d id column 0")
 
@@ -448,10 +561,47 @@ def sig_digits(fmt: str):
     return 0  # fixed-point: no relative precision
 
 
+def _accumulations(fn: ast.FunctionDef, name: str):
+    """How the string `name` is built: [(attribute, separator, iterated list text, node)] from
+    `name += item.attr + sep` in a for loop, or `name = sep.join(item.attr for item in LIST)`."""
+    pm = parent_map(fn)
+    out = []
+    for s in stmts_local(fn):
+        if isinstance(s, ast.AugAssign) and isinstance(s.op, ast.Add) and isinstance(s.target, ast.Name) and s.target.id == name:
+            loop = s
+            while loop in pm and not isinstance(loop, ast.For):
+                loop = pm[loop]
+            if not isinstance(loop, ast.For):
+                raise Undecided(f"`{u(s)}` is not inside a for loop")
+            item = loop.target.elts[1].id if isinstance(loop.target, ast.Tuple) and _isenum(loop.iter) and len(loop.target.elts) == 2 \
+                else (loop.target.id if isinstance(loop.target, ast.Name) else None)
+            lst = u(loop.iter.args[0]) if _isenum(loop.iter) else u(loop.iter)
+            v = s.value
+            attr = sep = None
+            if isinstance(v, ast.BinOp) and isinstance(v.op, ast.Add):
+                for x, y in ((v.left, v.right), (v.right, v.left)):
+                    if isinstance(x, ast.Attribute) and isinstance(x.value, ast.Name) and x.value.id == item and _str(y) is not None:
+                        attr, sep = x.attr, _str(y)
+            if attr is None:
+                raise Undecided(f"accumulation `{u(s)}` is not `+= item.<attr> + <sep>`")
+            out.append((attr, sep, lst, s))
+        elif isinstance(s, ast.Assign) and len(s.targets) == 1 and isinstance(s.targets[0], ast.Name) and s.targets[0].id == name \
+                and _is_call(s.value, "join") and isinstance(s.value.func, ast.Attribute) and _str(s.value.func.value) is not None \
+                and s.value.args and isinstance(s.value.args[0], (ast.GeneratorExp, ast.ListComp)) and len(s.value.args[0].generators) == 1:
+            g = s.value.args[0].generators[0]
+            e = s.value.args[0].elt
+            if isinstance(g.target, ast.Name) and isinstance(e, ast.Attribute) and isinstance(e.value, ast.Name) and e.value.id == g.target.id \
+                    and not g.ifs:
+                out.append((e.attr, _str(s.value.func.value), u(g.iter), s))
+            else:
+                raise Undecided(f"join expression `{u(s.value)[:80]}` not recognised")
+    return out
+
+
 def _check_txt(ctx: Ctx) -> None:
     m = ctx.repo.module(TXT)
     wq, rq = "export_data_to_txt", "read_data_from_txt"
-    wfn, rfn = m.func(wq), m.func(rq)
+    wfn, rfn = _fn(m, wq), _fn(m, rq)
     cls = m.cls("TxtData")
 
     # ---- R3 loader ---------------------------------------------------------------------
@@ -462,17 +612,17 @@ def _check_txt(ctx: Ctx) -> None:
     pm = parent_map(rfn)
     tgt = pm.get(ld)
     vname = tgt.targets[0].id if isinstance(tgt, ast.Assign) and isinstance(tgt.targets[0], ast.Name) else None
-    if vname is None:
-        raise Undecided(f"{rq}: loader result is not bound to a name")
-    iterated = None
-    for f in [n for n in walk_local(rfn) if isinstance(n, ast.For)]:
-        if vname in names_in(f.iter):
-            iterated = f
-    if iterated is None:
-        raise Undecided(f"{rq}: loader result is not iterated per column")
-    if not (isinstance(iterated.iter, ast.Call) and call_name(iterated.iter) == "zip" and len(iterated.iter.args) == 2):
-        raise Undecided(f"{rq}: pairing of names and columns is not zip(names, values)")
-    NAMES = u(iterated.iter.args[0]) if u(iterated.iter.args[1]) == vname else u(iterated.iter.args[1])
+    zips = [c for c in walk_local(rfn) if _is_call(c, "zip") and len(c.args) == 2]
+    pair = None
+    for z in zips:
+        a0, a1 = z.args
+        if (vname is not None and u(a1) == vname) or a1 is ld:
+            pair = (u(a0), z)
+        elif (vname is not None and u(a0) == vname) or a0 is ld:
+            pair = (u(a1), z)
+    if pair is None:
+        raise Undecided(f"{rq}: the loader result is not paired with the header names through zip(names, values)")
+    NAMES = pair[0]
     unpack = kwarg(ld, "unpack")
     ndmin = kwarg(ld, "ndmin")
     ctx.check("R3", isinstance(unpack, ast.Constant) and unpack.value is True, m, rq, ld,
@@ -487,64 +637,46 @@ def _check_txt(ctx: Ctx) -> None:
     if len(sv) != 1:
         raise AnchorError(f"{wq}: np.savetxt call not found")
     sv = sv[0]
-    H, FM, X = kwarg(sv, "header"), kwarg(sv, "fmt"), kwarg(sv, "X")
+    H, FM = kwarg(sv, "header"), kwarg(sv, "fmt")
+    X = kwarg(sv, "X") or (sv.args[1] if len(sv.args) > 1 else None)
     if not (isinstance(H, ast.Name) and isinstance(FM, ast.Name) and isinstance(X, ast.Name)):
         raise Undecided(f"{wq}: savetxt arguments header/fmt/X are not local names")
     comments = kwarg(sv, "comments")
     prefix = _str(comments) if comments is not None else "# "
     if prefix is None:
         raise Undecided(f"{wq}: comments= is not a literal")
-    # accumulation loop
-    accs = {}
-    for s in stmts_local(wfn):
-        if isinstance(s, ast.AugAssign) and isinstance(s.op, ast.Add) and isinstance(s.target, ast.Name) and s.target.id in (H.id, FM.id):
-            accs.setdefault(s.target.id, []).append(s)
-    if len(accs.get(H.id, [])) != 1 or len(accs.get(FM.id, [])) != 1:
-        raise Undecided(f"{wq}: header/fmt are not accumulated by exactly one `+=` each")
-    pmw = parent_map(wfn)
-
-    def loop_of(s):
-        p = s
-        while p in pmw and not isinstance(p, ast.For):
-            p = pmw[p]
-        return p if isinstance(p, ast.For) else None
-    hl, fl = loop_of(accs[H.id][0]), loop_of(accs[FM.id][0])
+    LISTP = wfn.args.args[0].arg
+    hacc, facc = _accumulations(wfn, H.id), _accumulations(wfn, FM.id)
+    if len(hacc) != 1 or len(facc) != 1:
+        raise Undecided(f"{wq}: header/fmt are not built by exactly one accumulation each ({len(hacc)}, {len(facc)})")
+    (hattr, hsep, hlist, hnode), (fattr, fsep, flist, fnode) = hacc[0], facc[0]
     stores = [s for s in stmts_local(wfn) if isinstance(s, ast.Assign) and isinstance(s.targets[0], ast.Subscript)
               and u(s.targets[0].value) == X.id]
     if len(stores) != 1:
         raise Undecided(f"{wq}: expected one column store into `{X.id}`")
-    xl = loop_of(stores[0])
-    same_loop = hl is not None and hl is fl and hl is xl
-    ctx.check("R5", same_loop, m, wq, stores[0],
-              "column values, header names and formats must be accumulated in one loop over the same list (lock-step)",
-              construct="txt columns/header/fmt one loop")
-    if not same_loop:
-        return
-    if not (_isenum(hl.iter) and isinstance(hl.target, ast.Tuple) and len(hl.target.elts) == 2):
-        raise Undecided(f"{wq}: accumulation loop is not `for idx, data in enumerate(<list>)`")
-    IDX, DAT = hl.target.elts[0].id, hl.target.elts[1].id
-    LIST = u(hl.iter.args[0])
-    ctx.check("R5", LIST == wfn.args.args[0].arg, m, wq, hl, f"the loop must run over the exported list itself (`{wfn.args.args[0].arg}`); "
-              f"it runs over `{LIST}`", construct=f"txt loop over {LIST}")
-
-    def sep_of(aug, attr):
-        v = aug.value
-        if isinstance(v, ast.BinOp) and isinstance(v.op, ast.Add):
-            l, r_ = v.left, v.right
-            if u(l) == f"{DAT}.{attr}" and _str(r_) is not None:
-                return _str(r_)
-            if u(r_) == f"{DAT}.{attr}" and _str(l) is not None:
-                return _str(l)
-        return None
-    hsep, fsep = sep_of(accs[H.id][0], "header"), sep_of(accs[FM.id][0], "format")
-    if hsep is None or fsep is None:
-        raise Undecided(f"{wq}: accumulations are not `+= data.header + <sep>` / `+= data.format + <sep>`")
-    ctx.check("R5", u(stores[0].value) == f"{DAT}.array", m, wq, stores[0], "column values come from the same item as name and format",
-              construct=f"txt column value {u(stores[0].value)}")
+    pmw = parent_map(wfn)
+    xl = stores[0]
+    while xl in pmw and not isinstance(xl, ast.For):
+        xl = pmw[xl]
+    if not (isinstance(xl, ast.For) and _isenum(xl.iter) and isinstance(xl.target, ast.Tuple) and len(xl.target.elts) == 2):
+        raise Undecided(f"{wq}: column store is not inside `for idx, item in enumerate(<list>)`")
+    xlist, IDX, DAT = u(xl.iter.args[0]), xl.target.elts[0].id, xl.target.elts[1].id
+    ctx.check("R5", hlist == flist == xlist, m, wq, stores[0],
+              f"column values, header names and formats must be taken from the same list in the same order; they iterate "
+              f"`{xlist}`, `{hlist}`, `{flist}`", construct=f"txt columns/header/fmt iterate {xlist} / {hlist} / {flist}")
+    ctx.check("R5", xlist == LISTP, m, wq, xl, f"the columns must come from the exported list itself (`{LISTP}`); "
+              f"they come from `{xlist}`", construct=f"txt loop over {xlist}")
+    ctx.check("R5", (hattr, fattr) == ("header", "format"), m, wq, hnode,
+              f"the header line is built from .header and the row format from .format; found .{hattr} / .{fattr}",
+              construct=f"txt header from .{hattr}, fmt from .{fattr}")
+    ctx.check("R5", u(stores[0].value) == f"{DAT}.array", m, wq, stores[0], "column values come from the item's .array",
+              construct=f"txt column value {_alpha(stores[0].value, DAT)}")
     # structured dtype names agree
     key_w = stores[0].targets[0].slice
-    apps = [c for c in walk_local(wfn) if isinstance(c, ast.Call) and call_name(c) == "append" and c.args and isinstance(c.args[0], ast.Tuple)]
-    key_d = apps[0].args[0].elts[0] if apps else None
+    key_d = None
+    for n in walk_local(wfn):
+        if isinstance(n, ast.Tuple) and len(n.elts) == 2 and isinstance(n.elts[0], ast.JoinedStr) and "float" in u(n.elts[1]):
+            key_d = n.elts[0]
     if not (isinstance(key_w, ast.JoinedStr) and isinstance(key_d, ast.JoinedStr)):
         raise Undecided(f"{wq}: structured field names are not f-strings")
 
@@ -553,36 +685,52 @@ def _check_txt(ctx: Ctx) -> None:
     ctx.check("R5", fpat(key_w) == fpat(key_d), m, wq, stores[0],
               f"field name pattern of the store `{fpat(key_w)}` must equal the dtype's `{fpat(key_d)}`",
               construct=f"txt field names {fpat(key_w)} / {fpat(key_d)}")
-    # reader side
-    # names = header.split(sep?)
+    # reader side: names = <header expr>.split(sep?)
     ndefs = [s for s in stmts_local(rfn) if isinstance(s, ast.Assign) and u(s.targets[0]) == NAMES]
-    if len(ndefs) != 1 or not (isinstance(ndefs[0].value, ast.Call) and call_name(ndefs[0].value) == "split"):
+    sp = ndefs[0].value if len(ndefs) == 1 else None
+    if sp is None and _is_call(pair[1].args[0], "split"):
+        sp = pair[1].args[0]
+    if not (isinstance(sp, ast.Call) and call_name(sp) == "split" and isinstance(sp.func, ast.Attribute)):
         raise Undecided(f"{rq}: `{NAMES}` is not defined as <header>.split(...)")
-    sp = ndefs[0].value
     rsep = None if not sp.args else _str(sp.args[0])
     if sp.args and rsep is None:
         raise Undecided(f"{rq}: split separator is not a literal")
     ok_sep = (rsep is None and hsep.strip() == "" and hsep != "") or (rsep is not None and rsep == hsep)
     ctx.check("R5", ok_sep, m, rq, sp, f"header names are joined with {hsep!r} and split on {'whitespace' if rsep is None else repr(rsep)} (must agree)",
               construct=f"txt header separator writer {hsep!r} reader {rsep!r}")
-    HV = u(sp.func.value)
-    hchain = [s for s in stmts_local(rfn) if isinstance(s, ast.Assign) and u(s.targets[0]) == HV]
+    # everything the header string went through before the split
+    chain: list[ast.expr] = []
+    todo = [sp.func.value]
+    seen: set[str] = set()
+    while todo:
+        e = todo.pop()
+        chain.append(e)
+        for n in ast.walk(e):
+            if isinstance(n, ast.Name) and n.id not in seen:
+                seen.add(n.id)
+                todo.extend(s.value for s in stmts_local(rfn) if isinstance(s, ast.Assign) and any(u(t) == n.id for t in s.targets))
     strips = []
     first_line = False
-    for s in hchain:
-        v = s.value
-        if isinstance(v, ast.Call) and call_name(v) in ("lstrip", "strip", "removeprefix") and v.args and _str(v.args[0]) is not None:
-            strips.append((call_name(v), _str(v.args[0])))
-        if isinstance(v, ast.Subscript) and _int(v.slice) == 0:
-            first_line = True
+    for e in chain:
+        for n in ast.walk(e):
+            if isinstance(n, ast.Call) and call_name(n) in ("lstrip", "strip", "removeprefix") and n.args and _str(n.args[0]) is not None:
+                strips.append((call_name(n), _str(n.args[0])))
+            if isinstance(n, ast.Subscript) and _int(n.slice) == 0:
+                first_line = True
+            if isinstance(n, ast.Call) and call_name(n) in ("readline", "next"):
+                first_line = True
+            if isinstance(n, ast.Subscript) and isinstance(n.slice, ast.Slice) and _int(n.slice.lower) == len(prefix) and n.slice.upper is None:
+                strips.append(("removeprefix", prefix))
     ok_prefix = prefix == "" or any((k in ("lstrip", "strip") and set(prefix) <= set(a)) or (k == "removeprefix" and a == prefix)
                                     for k, a in strips)
     ctx.check("R5", ok_prefix, m, rq, sp,
               f"np.savetxt prefixes the header line with {prefix!r}; the reader must strip it before splitting the names "
               f"(found {strips})", construct=f"txt comment prefix {prefix!r} stripped {ok_prefix}")
+    if not first_line:
+        raise Undecided(f"{rq}: cannot see that the header is the FIRST line of the file")
     skiprows = kwarg(ld, "skiprows")
-    ctx.check("R5", first_line and _int(skiprows) == 1 if skiprows is not None else False, m, rq, ld,
-              "the writer emits exactly one header line: names are taken from line 0 and the loader skips 1 row "
+    ctx.check("R5", _int(skiprows) == 1 if skiprows is not None else False, m, rq, ld,
+              "the writer emits exactly one header line: names are taken from the first line and the loader skips 1 row "
               f"(skiprows={u(skiprows) if skiprows is not None else 'absent'})",
               construct=f"txt skiprows {u(skiprows) if skiprows is not None else 'absent'}")
     rdel = kwarg(ld, "delimiter")
@@ -619,6 +767,11 @@ def _check_txt(ctx: Ctx) -> None:
                   f"write/read round trip (1.2345 is read back as 1.23)" if sd < 17 else f"default format {fs!r} is lossless",
                   construct=f"TxtData.format default {fs!r}", facts={"format": fs, "significant_digits": sd})
     ctx.sample({"rule": "R5", "header_sep": hsep, "fmt_sep": fsep, "comment_prefix": prefix, "reader_split": rsep})
+
+
+def _alpha(e: ast.expr, item: str) -> str:
+    """text of e with the loop item renamed (stable construct under renaming)"""
+    return u(e).replace(item + ".", "ITEM.") if isinstance(e, ast.Attribute) else u(e)
 
 
 def _sweep(ctx: Ctx) -> None:
